@@ -138,6 +138,7 @@ class BqModels(Models):
         self.small_order_tests = []   # arguments of is_small_order / is_weak
         self.force_eq = None          # scenario: outcome of compressed-point comparisons
         self.force_small = None       # scenario: outcome of small-order tests
+        self.mont_muls = []           # (point value, scalar polynomial) of Montgomery-point multiplications
         self.sc_decodes = 0
         self.r_decodes = 0
 
@@ -160,6 +161,12 @@ class BqModels(Models):
     def as_sp(v):
         if v[0] == "sp":
             return v
+        # a Scalar built directly from 32 symbolic bytes (no reduction): the integer those bytes denote - a different symbol from the
+        # canonical / reduced scalar sc(source) of the same bytes
+        if v[0] == "st" and len(v[1]) == 1:
+            r = run_of_bytes(v[1][0], 32)
+            if r:
+                return ssym(("int", r[0], r[1]))
         # a concrete Scalar constant { bytes: [u8; 32] }
         if v[0] == "st" and len(v[1]) == 1 and v[1][0][0] == "arr" and len(v[1][0][1]) == 32 and all(x[0] == "i" and x[1] == x[2] for x in v[1][0][1]):
             return sconst(sum((x[1] & 255) << (8 * j) for j, x in enumerate(v[1][0][1])))
@@ -368,6 +375,20 @@ class BqModels(Models):
         if S(r"(^|::)EdwardsPoint::mul_base$") and args:
             a = self.as_sp(D(0))
             return pscale(psym(("B",)), a) if a is not None else TOP
+        if any(re.search(r"<&'?\w* ?[\w:]*(MontgomeryPoint as core::ops::Mul<&'?\w* ?[\w:]*Scalar>|Scalar as core::ops::Mul<&'?\w* ?[\w:]*MontgomeryPoint>)>::mul$", nm) for nm in names) and len(args) == 2:
+            x, y = D(0), D(1)
+            sc_ = self.as_sp(x) if self.as_sp(x) is not None else self.as_sp(y)
+            pt_ = y if self.as_sp(x) is not None else x
+            self.mont_muls.append((pt_, sc_))
+            return ("mpt", pt_, sc_)
+        if S(r"(^|::)MontgomeryPoint::mul_base$") and args:
+            self.mont_muls.append((("basepoint",), self.as_sp(D(0))))
+            return ("mpt", ("basepoint",), self.as_sp(D(0)))
+        if S(r"(^|::)EdwardsPoint::to_montgomery$") and args and self.as_pl(ip, D(0)) is not None:
+            return ("mpt", ("to_montgomery", self.as_pl(ip, D(0))), sconst(1))
+        if S(r"BasepointTable>::mul_base$|EdwardsBasepointTable\w*::mul_base$") and len(args) == 2:
+            a = self.as_sp(D(1))
+            return pscale(psym(("B",)), a) if a is not None else TOP
         if S(r"(^|::)EdwardsPoint::vartime_double_scalar_mul_basepoint$") and len(args) == 3:
             a, A_, b = self.as_sp(D(0)), self.as_pl(ip, D(1)), self.as_sp(D(2))
             if a is None or A_ is None or b is None:
@@ -575,7 +596,10 @@ def show_sym(s):
     if s[0] == "z":
         return "z%d" % s[1]
     if s[0] == "sc" and s[1][0] == "clamp":
-        return "clamp(%s)" % show_in(("bytes", s[1][1], s[1][2], 32))
+        return "(clamp(%s) mod l)" % show_in(("bytes", s[1][1], s[1][2], 32))
+    if s[0] == "int":
+        inner = ("clamp(%s)" % show_in(("bytes", s[1][1], s[1][2], 32))) if s[1][0] == "clamp" else show_in(("bytes", s[1], s[2], 32))
+        return "int(%s)" % inner
     if s[0] == "sc":
         return "scalar(%s %s bytes %d..)" % (s[1][0], s[1][1] if len(s[1]) > 1 else "", s[2])
     if s[0] == "h":
